@@ -200,6 +200,15 @@ def _entries(ir):
     return [(n, p, False) for n, p in ir["params"]] + ([("return_type", ir["returns"], True)] if ir["returns"] else [])
 
 
+def nonstr_under_str_breaks(kind, edd, direct, negative):
+    """where a numeric / boolean default under a str-mentioning type does not survive (measured): the function kinds
+    carry it when no default text is written - except a negative number that went through the emitted text, which comes
+    back as an ast.UnaryOp; every other kind (and default text anywhere: quote() on a number) breaks"""
+    if kind in ("function", "method"):
+        return edd or (negative and not direct)
+    return True
+
+
 def _mentions_str(typ):
     """`needs_quoting(typ)`: the type names `str` or holds a string literal"""
     if not typ:
@@ -283,7 +292,7 @@ class AstKindProp(Prop):
     )
 
     def gen_opts(self, r):
-        return {"emit_default_doc": r.random() < 0.6, "word_wrap": r.random() < 0.3}
+        return {"emit_default_doc": r.random() < 0.6, "word_wrap": r.random() < 0.3, "direct": r.random() < 0.3}
 
     def gen(self, r, i, run):
         full = r.random() < 0.65
@@ -340,7 +349,8 @@ class AstKindProp(Prop):
     def conv(self, c):
         ir = self.py_ir(c["ir"])
         art = kinds.emit(self.kind, ir, self.emit_opts(c))
-        return ir, art, kinds.parse(self.kind, art)
+        # through the emitted TEXT, or (30% of the cases) handing the emitted tree straight to the parser
+        return ir, art, kinds.parse(self.kind, art, via_text=not c["opts"].get("direct"))
 
     def corr(self, c, run):
         op = {"op": "norm", "kind": self.model_kind, "inline": bool(c["opts"].get("inline_types")), "ir": unify_none(c["ir"])}
@@ -428,7 +438,11 @@ class AstKindProp(Prop):
             if d is not None and "efaults" in (p.get("doc") or "") and not G.has_own_default_sentence(p):
                 out.append(("C17-D9-prose-mentions-defaults", {n: F["C17-D9-prose-mentions-defaults"]}, set()))
             if d is not None and d["t"] in ("int", "float", "bool") and _mentions_str(p.get("typ")):
-                out.append(("AST-non-string-default-under-a-str-mentioning-type", {n: {"default", "typ", "prose"}}, set()))
+                o = c.get("opts", {})
+                edd = o.get("emit_default_doc", c.get("edd", True))
+                neg = d["t"] != "bool" and str(d["v"]).startswith("-")
+                if any(nonstr_under_str_breaks(k, edd, bool(o.get("direct")), neg) for k in kinds_here):
+                    out.append(("AST-non-string-default-under-a-str-mentioning-type", {n: {"default", "typ", "prose"}}, set()))
             if optional_prose(p) and not all(k == "argparse" for k in kinds_here):
                 out.append(("AST-prose-starting-with-optional-wraps-the-type", {n: {"typ"}}, set()))
         out += self.explain_kind(c)
